@@ -342,12 +342,23 @@ func runC09(r *Run, replay *Case) {
 		for _, v := range [][2]bool{{false, false}, {true, false}, {false, true}, {true, true}} {
 			c09Workload(r, rounds, v[0], v[1])
 		}
+		c09PairWorkload(r, rounds/3)
 		return
 	}
 	variants := [][2]bool{{false, false}, {true, false}, {false, true}, {true, true}}
 	if replay != nil {
 		// one cross-talk variant, in this (child) process
 		i := int(replay.Input["variant"].(float64))
+		if i == len(variants) {
+			calls, mism := c09PairWorkload(r, rounds)
+			name := "concurrent pairs of stateful programs"
+			c := &Case{Name: name, Input: map[string]any{"variant": i}, Impl: map[string]any{"calls": calls, "mismatches": len(mism)}, Key: name, Oracle: &Verdict{OK: true}}
+			if len(mism) > 0 {
+				c.Oracle = &Verdict{OK: false, Class: "cross-talk:pairs", Detail: strings.Join(mism[:min(3, len(mism))], "\n")}
+			}
+			r.Add(c)
+			return
+		}
 		v := variants[i]
 		calls, mism := c09Workload(r, rounds, v[0], v[1])
 		name := fmt.Sprintf("concurrent workload shared-data=%v files-changing=%v", v[0], v[1])
@@ -372,6 +383,19 @@ func runC09(r *Run, replay *Case) {
 			verdict.Class = fmt.Sprintf("crash:shared=%v:mutate=%v", v[0], v[1])
 			if strings.Contains(verdict.Detail, "concurrent map") {
 				verdict.Class = fmt.Sprintf("fatal-concurrent-map-access:shared=%v:mutate=%v", v[0], v[1])
+			}
+		}
+		r.Add(c)
+	}
+	{
+		// every pair of the stateful programs on an engine of its own (child process, like the variants above)
+		name := "concurrent pairs of stateful programs"
+		_, verdict := runIsolated("C09", map[string]any{"variant": len(variants)}, name, 10*time.Minute)
+		c := &Case{Name: name, Input: map[string]any{"variant": len(variants), "rounds": rounds}, Key: name, Oracle: verdict, Tags: []string{"stream:crosstalk-pairs"}}
+		if !verdict.OK && verdict.Class == "crash" {
+			verdict.Class = "crash:pairs"
+			if strings.Contains(verdict.Detail, "concurrent map") {
+				verdict.Class = "fatal-concurrent-map-access:pairs"
 			}
 		}
 		r.Add(c)
